@@ -39,6 +39,13 @@ def configs(tier):
         out.append({"fn": "mod_incr", "mod": mod})
         for mi in sorted(({0, 1, 2, 3, mod} & set(range(0, mod + 1))) | {mod + 1, 2 * mod + 1}):
             out.append({"fn": "mod_add", "mod": mod, "max_incr": mi})
+    # the operands' widths are parameters too ("for every input value and width"): sig (and incr) declared wider than
+    # range(mod) needs, with the value still < mod (DESIGN 13.2, seeded change C36c)
+    for mod in ((1, 2, 3, 4, 5, 8, 16) if tier == "quick" else range(1, 18)):
+        for extra in (1, 3):
+            out.append({"fn": "mod_incr", "mod": mod, "extra": extra})
+            for mi in sorted({1, 3, mod}):
+                out.append({"fn": "mod_add", "mod": mod, "max_incr": mi, "extra": extra})
     shapes_sets = [
         ["u3"], ["s3"], ["u2", "u4"], ["s2", "u3"], ["u1", "s4", "u2"], ["u3", "u3", "s2", "u1"], ["s3", "u2", "s1", "u4", "u2"],
     ]
@@ -119,7 +126,7 @@ def run(cfg, ctx):
         ctx.cover("pre", z3.And(*A))
     elif fn == "mod_incr":
         mod = cfg["mod"]
-        sg = Signal(range(mod), name="sg")
+        sg = Signal(len(Signal(range(mod))) + cfg.get("extra", 0), name="sg")
         ins = [sg] if len(sg) else []
         c = Comb(ins, lambda m: [F.mod_incr(sg, mod)])
         hw = ctx.use(c.hw)
@@ -129,8 +136,8 @@ def run(cfg, ctx):
         ctx.cover("pre", z3.And(*A))
     elif fn == "mod_add":
         mod, mi = cfg["mod"], cfg["max_incr"]
-        sg = Signal(range(mod), name="sg")
-        inc = Signal(range(mi + 1), name="inc")
+        sg = Signal(len(Signal(range(mod))) + cfg.get("extra", 0), name="sg")
+        inc = Signal(len(Signal(range(mi + 1))) + cfg.get("extra", 0), name="inc")
         ins = [s for s in (sg, inc) if len(s)]
         c = Comb(ins, lambda m: [F.mod_add(sg, mod, inc, mi)])
         hw = ctx.use(c.hw)
